@@ -8,6 +8,11 @@ pub assume_specification [String::len] (s: &String) -> (r: usize)
 pub proof fn axiom_str_byte_len(s: &str)
     ensures s.spec_bytes().len() == byte_len(s@), byte_len(s@) <= usize::MAX, // a str never exceeds isize::MAX bytes
 { }
+/// `s.chars().count()` (rule N22c): the number of characters; a UTF-8 encoded character occupies 1 to 4 bytes
+#[verifier::external_body]
+pub fn vchar_count(s: &str) -> (r: usize)
+    ensures r == s@.len(), r <= byte_len(s@), byte_len(s@) <= 4 * r,
+{ s.chars().count() }
 // String::from(&str) copies the characters (alloc::string From<&str>)
 #[verifier::external_body]
 pub fn vstring_from(s: &str) -> (r: String)
